@@ -32,6 +32,8 @@ def coq_of(tr, v):
         return '(VTuple [%s])' % '; '.join(coq_of(tr, x) for x in v)
     if type(v) is list:
         return '(VList [%s])' % '; '.join(coq_of(tr, x) for x in v)
+    if type(v) in (set, frozenset):
+        return '(VSet [%s])' % '; '.join(sorted(coq_of(tr, x) for x in v))
     mod = tr.mod(type(v).__module__)
     cls = [n for n in mod.tree.body if getattr(n, 'name', None) == type(v).__name__][0]
     names = [f for f, _ in tr.fields(mod, cls)[1]]
@@ -45,7 +47,7 @@ def run_target(target, cases, wd):
     lines, expected = [], []
     for (fname, args, fn, outs) in cases:
         import copy
-        a2 = copy.deepcopy(args)
+        a2 = copy.deepcopy(args) if outs else args  # only out parameters are mutated
         try:
             r = fn(*a2)
             exp = coq_of(tr, r) if not outs else '(VTuple [%s])' % '; '.join([coq_of(tr, r)] + [coq_of(tr, a2[i]) for i in outs])
@@ -133,6 +135,49 @@ def cases_outcome(rng):
     return out
 
 
+def cases_prog_verdict(rng):
+    m = importlib.import_module(py2coq._IP + 'instruction_from_parts_for_executing_program')
+    sh_ = 'py_instruction_from_parts_for_executing_program_result_to_sh'
+    pfh_ = 'py_instruction_from_parts_for_executing_program_result_to_pfh'
+    out = []
+    for code in [0, 0, 1, 2, 3, 127, 255] + [rng.randint(0, 255) for _ in range(10)]:
+        for stderr in (None, '', 'oops'):
+            r = m.ExecutionResultAndStderr(code, stderr, None, None)
+            out.append(('(fun r => py_attr_is_success (%s r))' % sh_, [r], lambda r: m.result_to_sh(r).is_success, []))
+            out.append(('(fun r => py_attr_is_hard_error (%s r))' % sh_, [r], lambda r: m.result_to_sh(r).is_hard_error, []))
+            out.append(('(fun r => py_attr_status (%s r))' % pfh_, [r], lambda r: m.result_to_pfh(r).status, []))
+    return out
+
+
+def cases_relativity(rng):
+    pr = importlib.import_module('exactly_lib.tcfs.path_relativity')
+    rv = importlib.import_module('exactly_lib.tcfs.relativity_validation')
+    ro = importlib.import_module('exactly_lib.type_val_deps.types.path.rel_opts_configuration')
+    opts = list(pr.RelOptionType)
+    out = []
+    for _ in range(80):
+        spec = pr.SpecificPathRelativity(rng.choice(opts + [None]))
+        acc = pr.PathRelativityVariants({o for o in opts if rng.below(2)}, bool(rng.below(2)))
+        out.append(('py_relativity_validation_is_satisfied_by', [spec, acc], rv.is_satisfied_by, []))
+    for o in opts + [None]:
+        out.append(('(fun s => py_relativity_validation_is_satisfied_by s py_rel_opts_configuration_RELATIVITY_VARIANTS_FOR_FILE_CREATION)',
+                    [pr.SpecificPathRelativity(o)], lambda s: rv.is_satisfied_by(s, ro.RELATIVITY_VARIANTS_FOR_FILE_CREATION), []))
+    return out
+
+
+def cases_exec_steps(rng):
+    ps = importlib.import_module('exactly_lib.execution.impl.phase_step_executors')
+    svh = importlib.import_module(py2coq._TR + 'svh')
+    sh = importlib.import_module(py2coq._TR + 'sh')
+    pfh = importlib.import_module(py2coq._TR + 'pfh')
+    p = 'py_phase_step_executors_'
+    return [(p + '_from_success_or_validation_error_or_hard_error', [x], ps._from_success_or_validation_error_or_hard_error, [])
+            for x in (svh.new_svh_success(), svh.new_svh_validation_error('m'), svh.new_svh_hard_error('m'))] + [
+        (p + '_from_success_or_hard_error', [x], ps._from_success_or_hard_error, []) for x in (sh.new_sh_success(), sh.new_sh_hard_error('m'))] + [
+        (p + '_from_pass_or_fail_or_hard_error', [x], ps._from_pass_or_fail_or_hard_error, [])
+        for x in (pfh.new_pfh_pass(), pfh.new_pfh_fail('m'), pfh.new_pfh_hard_error('m'))]
+
+
 def main():
     wd = os.path.join(common.WORK, 'py2coq_selftest')
     shutil.rmtree(wd, ignore_errors=True)
@@ -140,7 +185,8 @@ def main():
     py2coq.gen_all()
     rng = common.Rng(int(os.environ.get('VERIF_SEED', '20260926')))
     rc = 0
-    for target, gen in (('LineNums', cases_line_nums), ('Interval', cases_interval), ('Outcome', cases_outcome)):
+    for target, gen in (('LineNums', cases_line_nums), ('Interval', cases_interval), ('Outcome', cases_outcome),
+                        ('ProgVerdict', cases_prog_verdict), ('Relativity', cases_relativity), ('ExecSteps', cases_exec_steps)):
         b = common.coq_build(targets=['Gen/Src_%s.vo' % target])
         if not b.ok:
             print(target, 'Gen does not compile', b.broken[:2])
